@@ -959,23 +959,37 @@ impl<K: Hash + Eq + Send + Sync + 'static> MokaCache<K, LifetimeCache<Arc<Varied
             .insert(key, (Arc::new(response), (date_time, header, lifetime)));
         CacheOut::None
     }
-    pub(crate) fn insert_cache_item(
-        &self,
-        key: K,
-        response: VariedResponse,
-    ) -> CacheOut<VariedResponse> {
-        let headers = response.first().0.get_identity().headers();
+    /// What the headers of `response` say about storing it:
+    /// `None` if it must not be stored (`kvarn-cache-control: none`), else how long it may be kept.
+    pub(crate) fn storage_lifetime(response: &CompressedResponse) -> Option<Option<Duration>> {
+        let headers = response.get_identity().headers();
         let cache_control = parse::CacheControl::from_headers(headers).ok();
         // `kvarn-cache-control: none` keeps the response out of the server cache
         let no_store = headers.contains_key("kvarn-cache-control")
             && cache_control.as_ref().map_or(false, |cc| !cc.store());
         if no_store {
-            return CacheOut::NotInserted(response);
+            return None;
         }
-        let lifetime = cache_control
-            .as_ref()
-            .and_then(parse::CacheControl::as_freshness)
-            .map(|s| u64::from(s).std_seconds());
+        Some(
+            cache_control
+                .as_ref()
+                .and_then(parse::CacheControl::as_freshness)
+                .map(|s| u64::from(s).std_seconds()),
+        )
+    }
+    /// Whether a response with a body of `len` bytes fits in this cache.
+    pub(crate) fn fits(&self, len: usize) -> bool {
+        len < self.size_limit
+    }
+    pub(crate) fn insert_cache_item(
+        &self,
+        key: K,
+        response: VariedResponse,
+    ) -> CacheOut<VariedResponse> {
+        let lifetime = match Self::storage_lifetime(&response.first().0) {
+            Some(lifetime) => lifetime,
+            None => return CacheOut::NotInserted(response),
+        };
 
         debug!("Inserted item to cache with lifetime {lifetime:?}");
 
